@@ -8,6 +8,8 @@ EV=${SEEDED_VERIF_COPY:-/tmp/seeded_verif_copy}
 exec 9>"${EV}.lock"; flock 9
 mkdir -p "$EV"
 rsync -a --delete --exclude replays --exclude evidence --exclude .git /verif/ "$EV"/
+# tracked files: the COMMITTED versions (others may be editing the working tree right now)
+git -C /verif archive HEAD | tar -x -C "$EV"
 mkdir -p "$EV/evidence" "$EV/replays"
 wt=$(mktemp -d /tmp/seeded.XXXXXX)/wt
 git -C /repo worktree add -q --detach "$wt" HEAD || exit 3
